@@ -132,6 +132,7 @@ func TestVerifC11_Pacer(t *testing.T) {
 			now += dt
 		}
 		fail := func(format string, a ...any) {
+			st.Case(false, "failed", []string{"FAILED"}, func() string { return fmt.Sprintf(format, a...) })
 			rt.Fatalf("C11 pacer: %s\n bwMax=%d bw=%d mds=%d now=%d lastSent=%d budgetAtLastSent=%d\n history: %s",
 				fmt.Sprintf(format, a...), bwMax, bw, mds, now, int64(p.lastSentTime), int64(p.budgetAtLastSent), v11pRender(calls))
 		}
